@@ -1,3 +1,4 @@
+import TrimeshVerif.Model.Creation
 /-
 Connectivity of a full-turn `creation.revolve` of a profile that starts and ends on the axis (C15, growth).
 Core Lean only.  Vertex (i, j) = profile point i on slice j has index `j * per + i` (the layout `revolve`
@@ -66,5 +67,36 @@ def bd (n : Nat) : List (Nat × Nat) := (List.range n).map (fun i => (i, i + 1))
     interior edges in opposite pairs (stated without naming the interior edges, so that it is decidable) -/
 def capOk (n : Nat) (T : List Face) : Bool :=
   ((dirEdges T).map Prod.swap ++ bd n).isPerm (dirEdges T ++ (bd n).map Prod.swap)
+
+/-! ### full turn of a closed profile (annulus: first point = last point, away from the axis): every profile
+    segment keeps both triangles, the wrap-around quad is dropped, row `per - 1` is merged into row 0 -/
+
+def sliceFacesR (per slices j : Nat) : List Face :=
+  (List.range (per - 1)).flatMap (fun i =>
+    [(vid per slices i j, vid per slices i (j + 1), vid per slices (i + 1) j),
+     (vid per slices (i + 1) j, vid per slices i (j + 1), vid per slices (i + 1) (j + 1))])
+
+def gridFacesR (per slices : Nat) : List Face := (List.range slices).flatMap (sliceFacesR per slices)
+
+def identR (per : Nat) (v : Nat) : Nat := if v % per = per - 1 then v - (per - 1) else v
+
+def ringSurface (per slices : Nat) : List Face := (gridFacesR per slices).map (mapFace (identR per))
+
+def ringKeep (per : Nat) (k : Nat) : Bool := decide (k < 2 * (per - 1))
+
+/-! ### partial revolve with caps of an open loop profile: nothing dropped, nothing merged -/
+
+/-- boundary of the loop polygon in profile order (the last point returns to the first) -/
+def bdC (n : Nat) : List (Nat × Nat) := (List.range n).map (fun i => (i, (i + 1) % n))
+
+def capOkC (n : Nat) (T : List Face) : Bool :=
+  ((dirEdges T).map Prod.swap ++ bdC n).isPerm (dirEdges T ++ (bdC n).map Prod.swap)
+
+/-- the cap names profile points only -/
+def capInRange (n : Nat) (T : List Face) : Bool := T.all (fun t => t.1 < n && t.2.1 < n && t.2.2 < n)
+
+def openLoopRaw (per slices : Nat) (T : List Face) : List Face :=
+  TV.Creation.revolveFaces per slices (per * (slices + 1)) (fun _ => true)
+    ++ T ++ (T.map (mapFace (· + slices * per))).map flipFace
 
 end TV.RevolveGrid
